@@ -78,6 +78,8 @@ type storeRec struct {
 	val   AV
 	instr ssa.Instruction
 	state DNF
+	seq   int    // global evaluation order of the store
+	frame *Frame // frame in which the store was evaluated
 }
 
 // AStruct is a symbolic struct value (fields derived lazily from key).
